@@ -24,6 +24,10 @@ TInit == Init /\ l = 1
 
 Dispatch ==
   \/ Line.a = "PushBack" /\ PushBack(Line.arg.i, Line.arg.x)
+  \/ Line.a = "PushBackRv" /\ PushBackRv(Line.arg.i, Line.arg.x)
+  \/ Line.a = "PushBackOwn" /\ PushBackOwn(Line.arg.i)
+  \/ Line.a = "CopyCtor" /\ CopyCtor(Line.arg.i)
+  \/ Line.a = "InsertMid" /\ InsertMid(Line.arg.i, Line.arg.x)
   \/ Line.a = "PopBack" /\ PopBack(Line.arg.i)
   \/ Line.a = "Resize" /\ Resize(Line.arg.i, Line.arg.n)
   \/ Line.a = "ResizeVal" /\ ResizeVal(Line.arg.i, Line.arg.n, Line.arg.x)
